@@ -164,7 +164,9 @@ def run(ctx):
             ctx.broke("K", "qmlast/astutil.rs literal parsing vs model/Literal.v", "model and implementation differ on %d literals; first: %s" % (len(real) + len(reals), what))
     # ---------------- 2. constant expressions: boundary matrix + generated constants
     mags = [0, 1, 2, 3, 31, 32, 63, 64, 2 ** 31 - 1, 2 ** 31, 2 ** 32, 2 ** 53, 2 ** 62, 2 ** 63 - 1]
-    ops = ["+", "-", "*", "/", "%", "&", "|", "^", "<<", ">>", "==", "!=", "<", "<=", ">", ">="]
+    # the last five are operators the translator has no lowering for (opcode.rs TryFrom<BinaryOperator>): they stay in the matrix with their ECMAScript
+    # meaning, so that a lowering added later onto a neighbouring operator (`>>>` as `>>`, `**` as `*`, `??` as `||`, `===` as `==` on mixed types) is measured too
+    ops = ["+", "-", "*", "/", "%", "&", "|", "^", "<<", ">>", "==", "!=", "<", "<=", ">", ">=", ">>>", "**", "??", "===", "!=="]
     pool = tircheck.Pool(ctx)
     mat = []
     sel = mags if thorough else [0, 1, 3, 63, 64, 2 ** 31, 2 ** 53, 2 ** 62, 2 ** 63 - 1]
@@ -666,7 +668,14 @@ def oracle_fold(op, a, b):
         return None if b < 0 or b >= 64 else rng(a << b)
     if op == ">>":
         return None if b < 0 or b >= 64 else a >> b
-    return {"==": a == b, "!=": a != b, "<": a < b, "<=": a <= b, ">": a > b, ">=": a >= b}[op]
+    if op == ">>>":
+        # ECMAScript: ToUint32(a) >>> (ToUint32(b) & 31); exact only while both operands are safe integers
+        return None if b < 0 or b >= 64 or abs(a) > 2 ** 53 else (a % 2 ** 32) >> (b % 32)
+    if op == "**":
+        return None if b < 0 or (b > 64 and abs(a) > 1) else rng(a ** b)
+    if op == "??":
+        return a
+    return {"==": a == b, "!=": a != b, "<": a < b, "<=": a <= b, ">": a > b, ">=": a >= b, "===": a == b, "!==": a != b}[op]
 
 
 # ---------------------------------------------------------------- pipeline
